@@ -4,7 +4,7 @@ from .mir import Fn, Flow, op_root, place_fields
 # order- and content-preserving plumbing only (rev/filter/zip/chain/enumerate are deliberately absent: they change the sequence)
 ITER_PASS = {"iter", "iter_mut", "into_iter", "map", "cloned", "copied", "collect", "into", "from", "clone",
              "as_slice", "to_vec", "deref", "deref_mut", "as_ref", "unwrap_or_clone", "new", "to_owned",
-             "into_boxed_slice", "into_vec", "from_iter", "by_ref", "as_mut", "borrow", "branch", "unwrap", "expect"}
+             "into_boxed_slice", "into_vec", "from_iter", "by_ref", "as_mut", "borrow", "branch", "unwrap", "expect", "unzip"}
 
 
 def make_flow(fn, fx, extra_names=()):
@@ -21,7 +21,22 @@ def make_flow(fn, fx, extra_names=()):
     return Flow(fn, extra_pass=p, only_extra=True)
 
 
-def collection_roots(fn, flow, operand, depth=0):
+_HELPER_MEMO = {}
+
+
+def _helper_roots(fx, key, sub, extra_names, hdepth, stop_names=()):
+    """roots of (the `sub` component of) the value a workspace helper returns, in the helper's own terms"""
+    mk = (id(fx), key, sub, tuple(sorted(extra_names)), tuple(sorted(stop_names)))
+    if mk not in _HELPER_MEMO:
+        _HELPER_MEMO[mk] = None
+        hfn = Fn(fx.fns[key])
+        hflow = make_flow(hfn, fx, extra_names=extra_names)
+        pl = {"l": 0, "p": [{"f": i, "n": n} for i, n in enumerate(sub)]}
+        _HELPER_MEMO[mk] = (hfn, collection_roots(hfn, hflow, {"k": "copy", "pl": pl}, 0, fx=fx, extra_names=extra_names, hdepth=hdepth + 1, stop_names=stop_names))
+    return _HELPER_MEMO[mk]
+
+
+def collection_roots(fn, flow, operand, depth=0, fx=None, extra_names=(), hdepth=0, stop_names=()):
     """Root origins of a collection-valued operand.  A root is an origin tuple from Flow.origins; a collection created
     empty (Vec::new/with_capacity/default) and filled by `push` inside a loop is replaced by the roots of the loop's
     iterator and marked ('loop', ...)."""
@@ -36,12 +51,37 @@ def collection_roots(fn, flow, operand, depth=0):
                 filled = _fill_roots(fn, flow, t["dest"]["l"], depth)
                 out |= filled if filled else {o}
                 continue
+            # a helper of the workspace: what it returns, traced through its body (its parameters mapped back to the arguments here)
+            k2 = t.get("resolved_key") or (t.get("callee_key") if not t.get("callee_trait") else None)
+            if fx is not None and k2 in fx.fns and hdepth < 3 and "{closure" not in k2 and len(fx.fns[k2]["blocks"]) < 200 \
+                    and t.get("callee_name") not in stop_names:
+                hr = _helper_roots(fx, k2, tuple(o[2]), extra_names, hdepth, stop_names)
+                if hr is not None:
+                    hfn, roots = hr
+                    mapped = set()
+                    okmap = True
+                    for r2 in roots:
+                        tag = r2[0] if r2[0] != "loop" else r2[1]
+                        body = r2 if r2[0] != "loop" else r2[1:]
+                        if tag == "call":
+                            mapped.add(("hcall", hfn.term(body[1]).get("callee_name"), hfn.term(body[1]).get("callee_key")))
+                        elif tag == "hcall":
+                            mapped.add(body)
+                        elif tag == "arg" and body[1] - 1 < len(t["args"]) and t["args"][body[1] - 1].get("k") in ("copy", "move"):
+                            a = t["args"][body[1] - 1]
+                            a2 = {"k": a["k"], "pl": {"l": a["pl"]["l"], "p": list(a["pl"]["p"]) + [{"f": 0, "n": n} for n in body[2]]}}
+                            mapped |= collection_roots(fn, flow, a2, depth + 1, fx=fx, extra_names=extra_names, hdepth=hdepth, stop_names=stop_names)
+                        else:
+                            okmap = False
+                    if okmap and mapped:
+                        out |= mapped
+                        continue
         if o[0] == "agg" and depth < 4:
             rv = flow.agg_at(o)
             if rv.get("agg") == "adt" and len(rv["ops"]) <= 2 and rv.get("fields") and set(rv["fields"]) & {"bindings", "entries"}:
                 for fld, op in zip(rv["fields"], rv["ops"]):
                     if fld in ("bindings", "entries"):
-                        out |= collection_roots(fn, flow, op, depth + 1)
+                        out |= collection_roots(fn, flow, op, depth + 1, fx=fx, extra_names=extra_names, hdepth=hdepth, stop_names=stop_names)
                 continue
         out.add(o)
     return out
